@@ -13,8 +13,12 @@ import (
 func TestVerifC12Defaulting(t *testing.T) {
 	r := ev.New("C12", "default-route-and-primary")
 	defer r.Flush()
-	r.Rule("every list of 1-4 network configurations over interface names {'', eth0, eth1, eth2} x DefaultRoute flag through the real defaultForNetConf; oracle: accepted lists end with EXACTLY one default-route interface and contain the primary interface ('' or eth0); a list with two default routes or without primary interface is refused; an explicit single default route is never moved")
+	r.Rule("every list of 1-4 (thorough: 1-6) network configurations over interface names {'', eth0, eth1, eth2} x DefaultRoute flag through the real defaultForNetConf; oracle: accepted lists end with EXACTLY one default-route interface and contain the primary interface ('' or eth0); a list with two default routes or without primary interface is refused; an explicit single default route is never moved")
 	names := []string{"", "eth0", "eth1", "eth2"}
+	maxLen := 4
+	if ev.Thorough() {
+		maxLen = 6 // thorough: lists of up to 6 interfaces
+	}
 	var rec func(cur []*rpc.NetConf)
 	rec = func(cur []*rpc.NetConf) {
 		if len(cur) > 0 {
@@ -58,7 +62,7 @@ func TestVerifC12Defaulting(t *testing.T) {
 				r.Case(fmt.Sprintf("%d/%d/%v/%v", len(cur), nDef, hasPrimary, err == nil), in)
 			}
 		}
-		if len(cur) == 4 {
+		if len(cur) == maxLen {
 			return
 		}
 		for _, n := range names {
